@@ -41,6 +41,12 @@ func c11Faults() []faultKind {
 		{name: "invalid-regex-held-in-a-variable", mk: func() Expr { return Bin("~", S("abc-def"), V("vbadre")) }},
 		{name: "invalid-pattern-string-held-in-a-variable", mk: func() Expr { return Bin("!~", V("vstr"), V("vbadpat")) }},
 		{name: "invalid-regex-returned-by-a-function", mk: func() Expr { return Bin("~", S("abc"), CallE(V("idf"), V("vbadre"), N("0"))) }},
+		{name: "invalid-regex-lone-closing-paren", selfCont: true, mk: func() Expr { return Bin("~", S("x)"), S("x)")) }},
+		{name: "invalid-regex-closing-paren-literal", selfCont: true, mk: func() Expr { return Bin("!~", S("ab"), &RegexLit{Pat: "a)b"}) }},
+		{name: "invalid-regex-open-bracket", selfCont: true, mk: func() Expr { return Bin("~", S("a"), S("[a")) }},
+		{name: "invalid-regex-bad-repeat", selfCont: true, mk: func() Expr { return Bin("~", S("a"), S("a{2,1}")) }},
+		{name: "invalid-regex-trailing-backslash", selfCont: true, mk: func() Expr { return Bin("~", S("a"), S("a\\\\")) }},
+		{name: "invalid-regex-nothing-to-repeat", selfCont: true, mk: func() Expr { return Bin("~", S("a"), S("*a")) }},
 		{name: "call-null", mk: func() Expr { return CallE(&NullLit{}) }, selfCont: true},
 		{name: "call-number", mk: func() Expr { return CallE(V("vnum"), N("1")) }},
 		{name: "call-string", mk: func() Expr { return CallE(S("s")) }, selfCont: true},
@@ -104,6 +110,9 @@ func c11Positions() []faultPos {
 		{"first-call-argument", func(f Expr) []Stmt { return one(Pr(CallE(V("idf"), f, N("1")))) }},
 		{"second-call-argument", func(f Expr) []Stmt { return one(Pr(CallE(V("idf"), N("1"), f))) }},
 		{"method-argument", func(f Expr) []Stmt { return one(Pr(Meth(Arr(N("1")), "contains", f))) }},
+		{"surplus-argument-of-a-user-function", func(f Expr) []Stmt { return one(Pr(CallE(V("idf"), N("1"), N("2"), f))) }},
+		{"surplus-argument-of-a-method", func(f Expr) []Stmt { return one(Pr(Meth(Arr(N("1")), "length", f))) }},
+		{"second-of-two-surplus-arguments", func(f Expr) []Stmt { return one(ES(CallE(V("idf"), N("1"), N("2"), N("3"), f))) }},
 		{"array-element", func(f Expr) []Stmt { return one(Pr(Arr(N("1"), f, N("3")))) }},
 		{"object-value", func(f Expr) []Stmt {
 			return one(asg(V("sink"), &ObjectLit{Keys: []string{"a", "k"}, Quoted: []bool{false, false}, Vals: []Expr{N("1"), f}}))
@@ -590,7 +599,7 @@ func c11Run(c *Case) {
 func init() {
 	register(&Prop{
 		ID: "C11", Level: "fault_enumeration",
-		Rule:          "fault enumeration. (a) syntax splices: a generated valid host program (starting with BEGIN { print 'early' }) x 25 splice kinds (6 illegal bytes, unmatched ) ] }, lone quote, missing operands, return outside a function, break/continue outside a loop, assignment to a literal / arithmetic result / array literal, unterminated string / regex) inserted at a random token boundary or statement position: outcome must be `syntax` with empty stdout. (b) runtime faults: 36 fault kinds x 35 syntactic positions (every operand slot, prefix operand, callee, call/method argument, array element, object value, index, member base, if/while condition, for initialiser/condition/post, for-in iterable, match subject/body expression/body block, print/printf argument, nested blocks) x 3 contexts (BEGIN; pattern rule on the 2nd of 3 elements; function called from END), plus rule pattern, return value, BEGINFILE, ENDFILE and -r selector placements (the selector alone, after output printed by the same selector, and as second selector after the first was processed); 18 late faults (a printf / arithmetic / index / regex / method site that worked on earlier data and fails on later data, output computed by hand); each planted statement is surrounded by print 'pre' / print 'post'; stdout prefix and `runtime` outcome vs the reference model. Sampled: the same faults planted at random positions of structured programs. Every cell is non-trivial; distinct by (fault, position, context) or program text.",
+		Rule:          "fault enumeration. (a) syntax splices: a generated valid host program (starting with BEGIN { print 'early' }) x 25 splice kinds (6 illegal bytes, unmatched ) ] }, lone quote, missing operands, return outside a function, break/continue outside a loop, assignment to a literal / arithmetic result / array literal, unterminated string / regex) inserted at a random token boundary or statement position: outcome must be `syntax` with empty stdout. (b) runtime faults: 42 fault kinds x 38 syntactic positions (every operand slot, prefix operand, callee, call/method argument, array element, object value, index, member base, if/while condition, for initialiser/condition/post, for-in iterable, match subject/body expression/body block, print/printf argument, nested blocks) x 3 contexts (BEGIN; pattern rule on the 2nd of 3 elements; function called from END), plus rule pattern, return value, BEGINFILE, ENDFILE and -r selector placements (the selector alone, after output printed by the same selector, and as second selector after the first was processed); 18 late faults (a printf / arithmetic / index / regex / method site that worked on earlier data and fails on later data, output computed by hand); each planted statement is surrounded by print 'pre' / print 'post'; stdout prefix and `runtime` outcome vs the reference model. Sampled: the same faults planted at random positions of structured programs. Every cell is non-trivial; distinct by (fault, position, context) or program text.",
 		NumCases:      c11Cases,
 		Run:           c11Run,
 		MinConclusive: func(tier string) int { return 8000 },
